@@ -129,7 +129,9 @@ Proof.
 Qed.
 
 Definition gprop_of (p : proposal) : G_PublicKeysChangeProposal :=
-  {| G_PublicKeysChangeProposal_Id := pp_id p; G_PublicKeysChangeProposal_Creator := pp_creator p; G_PublicKeysChangeProposal_Votes := map (fun v => {| G_Vote_PublicKey := fst v; G_Vote_Vote := snd v |}) (pp_votes p);
+  {| G_PublicKeysChangeProposal_Id := pp_id p; G_PublicKeysChangeProposal_Creator := pp_creator p;
+     G_PublicKeysChangeProposal_Modifications := {| G_PubkeysChangeProposalPayload_PublicKeys := pp_keys p; G_PubkeysChangeProposalPayload_LeaderIndex := pp_leader p |};
+     G_PublicKeysChangeProposal_Votes := map (fun v => {| G_Vote_PublicKey := fst v; G_Vote_Vote := snd v |}) (pp_votes p);
      G_PublicKeysChangeProposal_StartTS := pp_start p; G_PublicKeysChangeProposal_Result := pp_result p; G_PublicKeysChangeProposal_ResultMeta := 0;
      G_PublicKeysChangeProposal_FinishTS := pp_finish p; G_PublicKeysChangeProposal_Status := pp_status p |}.
 (* the expiry test of ovm_finish *)
